@@ -73,13 +73,63 @@ func runExtOpsWire(wire []byte, ops []Tok) Outcome {
 			m = append(m, kvp{id, append([]byte{}, h.GetExtension(id)...)})
 		}
 	}
-	o := runExtOpsOn(h, m, dups, ops)
+	var sizes []elemSize
+	for _, e := range wireAllElements(wire) {
+		sizes = append(sizes, e)
+	}
+	o := runExtOpsOn(h, m, dups, ops, sizes...)
 	if dups {
 		o.Tags = append(o.Tags, "start header from a wire with a repeated id")
 	} else {
 		o.Tags = append(o.Tags, "start header from a wire")
 	}
 	return o
+}
+
+// wireAllElements lists (id, value length) of every element of the wire's extension block in order,
+// walked from the RFC 8285 layout (see wireElements in c02.go)
+func wireAllElements(buf []byte) []elemSize {
+	var out []elemSize
+	if len(buf) < 12 || buf[0]&0x10 == 0 {
+		return nil
+	}
+	pos := 12 + 4*int(buf[0]&0x0F)
+	if len(buf) < pos+4 {
+		return nil
+	}
+	profile := int(buf[pos])<<8 | int(buf[pos+1])
+	start := pos + 4
+	end := start + 4*(int(buf[pos+2])<<8|int(buf[pos+3]))
+	if end > len(buf) {
+		end = len(buf)
+	}
+	switch {
+	case profile == 0xBEDE:
+		for q := start; q < end; {
+			b := buf[q]
+			if b == 0 {
+				q++
+				continue
+			}
+			if b>>4 == 15 {
+				break
+			}
+			out = append(out, elemSize{b >> 4, int(b&15) + 1})
+			q += 2 + int(b&15)
+		}
+	case profile&0xFFF0 == 0x1000:
+		for q := start; q+1 < end; {
+			if buf[q] == 0 {
+				q++
+				continue
+			}
+			out = append(out, elemSize{buf[q], int(buf[q+1])})
+			q += 2 + int(buf[q+1])
+		}
+	default:
+		out = append(out, elemSize{0, end - start})
+	}
+	return out
 }
 
 func dedupIDs(ids []uint8) []uint8 {
@@ -94,8 +144,55 @@ func dedupIDs(ids []uint8) []uint8 {
 	return out
 }
 
-func runExtOpsOn(h rtp.Header, m []kvp, dups bool, ops []Tok) Outcome {
+// elemSize: id and value length of every element the header holds, repeated ids included - what decides
+// whether one more value still fits the 65535 words the extension length field can count
+type elemSize struct {
+	id uint8
+	n  int
+}
+
+func runExtOpsOn(h rtp.Header, m []kvp, dups bool, ops []Tok, sizes ...elemSize) Outcome {
 	var o Outcome
+	// overflows: would the elements, with this value set, exceed 65535 words?  (RFC 8285 forms; a legacy
+	// value is bounded by validFor)
+	overflows := func(profile uint16, id uint8, n int) bool {
+		k := 0
+		switch {
+		case profile == 0xBEDE:
+			k = 1
+		case isTwoByte(profile):
+			k = 2
+		default:
+			return false
+		}
+		total, replaced := 0, false
+		for _, e := range sizes {
+			if e.id == id && !replaced {
+				replaced = true
+				continue
+			}
+			total += k + e.n
+		}
+		return total+k+n > 4*65535
+	}
+	setSize := func(id uint8, n int) {
+		for i := range sizes {
+			if sizes[i].id == id {
+				sizes[i].n = n
+				return
+			}
+		}
+		sizes = append(sizes, elemSize{id, n})
+	}
+	delSize := func(id uint8) {
+		kept := sizes[:0:0]
+		for _, e := range sizes {
+			if e.id != id {
+				kept = append(kept, e)
+			}
+		}
+		sizes = kept
+	}
 	d := struct {
 		ext     bool
 		profile uint16
@@ -148,10 +245,15 @@ func runExtOpsOn(h rtp.Header, m []kvp, dups bool, ops []Tok) Outcome {
 						enabled = true
 					}
 				}
-				if (err == nil) != want {
+				if want && enabled && overflows(profile, id, len(v)) {
+					// a value that does not fit the block any more: refusing it is right; accepting it is only
+					// right if the value then survives the wire (judged below)
+					o.Tags = append(o.Tags, "set beyond 65535 words")
+				} else if (err == nil) != want {
 					fail("step %d: SetExtension(%d, %d bytes) returned %v, the profile rules say accepted=%v", step, id, len(v), err, want)
 				}
 				if err == nil {
+					setSize(id, len(v))
 					if i := find(id); i >= 0 {
 						m[i].v = append([]byte{}, v...)
 					} else {
@@ -177,6 +279,9 @@ func runExtOpsOn(h rtp.Header, m []kvp, dups bool, ops []Tok) Outcome {
 				}
 				if err == nil && i >= 0 {
 					m = append(m[:i:i], m[i+1:]...)
+				}
+				if err == nil {
+					delSize(id)
 				}
 				if err == nil {
 					// "deleted ids absent"
@@ -369,6 +474,32 @@ func init() {
 					v := bytes.Repeat([]byte{0xAB}, n)
 					emit(501, starts[3].tok(), TList{TList{TI(1), TI(0), TBytes(v)}, TList{TI(3), TI(0)}, TList{TI(4)}})
 				}
+			}
+			{
+				// headers off the wire whose block is full to (or a few bytes short of) the 65535 words the length
+				// field can count - possible only with an id named again and again - and then one more value,
+				// a longer value for an id that is there, and a same-size replacement
+				c := r.Fork(5021)
+				fixed := []byte{0x90, 96, 0, 1, 0, 0, 0, 2, 0, 0, 0, 3}
+				two := append(append([]byte{}, fixed...), 0x10, 0x00, 0xFF, 0xFF)
+				for k := 0; k < 1020; k++ {
+					two = append(append(two, 1, 255), c.Bytes(255)...)
+				}
+				one := append(append([]byte{}, fixed...), 0xBE, 0xDE, 0xFF, 0xFF)
+				for k := 0; k < 15420; k++ {
+					one = append(append(one, 0x1F), c.Bytes(16)...)
+				}
+				almost := append(append([]byte{}, fixed...), 0x10, 0x00, 0xFF, 0xFF)
+				for k := 0; k < 1019; k++ {
+					almost = append(append(almost, 1, 255), c.Bytes(255)...)
+				}
+				almost = append(append(almost, 7, 250), c.Bytes(250)...)
+				almost = append(almost, 0, 0, 0, 0, 0)
+				for _, w := range [][]byte{two, one, almost} {
+					emit(502, TBytes(w), TList{set(2, 3), TList{TI(3), TI(2)}, TList{TI(3), TI(1)}})
+					emit(502, TBytes(w), TList{set(1, 16), TList{TI(3), TI(1)}, set(1, 1), set(3, 2), TList{TI(3), TI(3)}})
+				}
+				emit(502, TBytes(almost), TList{set(7, 255), TList{TI(3), TI(7)}, set(7, 253), TList{TI(2), TI(1)}, set(9, 255), TList{TI(4)}})
 			}
 			idsPool := []int{0, 1, 2, 14, 15, 16, 255}
 			lens := []int{0, 1, 3, 4, 16, 17, 255, 256, 300}
